@@ -125,7 +125,8 @@ fn rule_to_local_timestamp(start: &RuleDay, time: i32, timestamp: i64) -> i64 {
         }
         RuleDay::JulianDayWithLeap(doy) => {
             let year = DateTime::from_timestamp(timestamp).year();
-            year_doy_to_days(year, doy + 1, false).unwrap()
+            // Counted from January 1, so day 365 of a common year is January 1 of the next year
+            year_doy_to_days(year, 1, false).unwrap() + *doy as i32
         }
         RuleDay::MonthWeekDay(month, week, day) => {
             let year = DateTime::from_timestamp(timestamp).year();
